@@ -2,6 +2,7 @@ import operator
 import warnings
 from datetime import datetime
 from collections.abc import Iterable
+from collections.abc import Iterator
 
 from .vector import Vector
 from .vector import _at_midnight
@@ -834,14 +835,29 @@ class Table(Vector):
 
 		# The key and the value may be (made of) live columns of this very table - t[t.flag, :] = 0,
 		# t[:, ['a', 'b']] = [t.b, t.a] - and the columns are written one after the other: snapshot
-		# them, so that what is written first cannot change what is read next.
+		# them, so that what is written first cannot change what is read next. (A one-shot iterator
+		# is materialised: the value is read twice when the assignment is rehearsed below.)
 		if isinstance(row_spec, Vector):
 			row_spec = row_spec.copy()
 		if isinstance(value, Vector):
 			value = value.copy()
 		elif isinstance(value, (list, tuple)):
 			value = [v.copy() if isinstance(v, Vector) else v for v in value]
+		elif isinstance(value, Iterator):
+			value = list(value)
 
+		# More than one column: rehearse the whole assignment on scratch copies of the target
+		# columns first. Whatever one of them refuses (a value of the wrong kind, a wrong length, a
+		# bad index) is refused here, before any column of the table is written: all or none.
+		if len(target_indices) > 1:
+			with warnings.catch_warnings():
+				warnings.simplefilter("ignore")
+				scratch = Table([self._underlying[col_idx].copy() for col_idx in target_indices])
+				scratch._write_columns(list(range(len(target_indices))), row_spec, value)
+		self._write_columns(target_indices, row_spec, value)
+
+	def _write_columns(self, target_indices, row_spec, value):
+		"""Write value into the cells of the target columns at row_spec, column by column."""
 		# --- 3. Handle Assignment ---
 		
 		# CASE A: Scalar Assignment (Broadcast)
